@@ -71,6 +71,39 @@ fn main() {
             let _ = std::fs::remove_dir_all(&base_dir);
             std::process::exit(code);
         }
+        if what == "fields" {
+            // debugging aid: only the field-for-field workload of C03, violations grouped by class
+            let cases = checks::fields::field_cases(&ctx);
+            let (_r, stats, findings, herr) = engine::par_map(&ctx, &cases, |w, _, c| w.judge(c));
+            let mut by: std::collections::BTreeMap<String, Vec<&engine::Finding>> = Default::default();
+            for f in &findings {
+                by.entry(f.violation.class.clone()).or_default().push(f);
+            }
+            for (c, fs) in &by {
+                println!("{:4} {}\n       e.g. {}: {}", fs.len(), c, fs[0].case.name, fs[0].violation.detail.replace('\n', " | "));
+            }
+            if let Ok(pat) = std::env::var("SHOW_REFUSED") {
+                let (_r, _, _, _) = engine::par_map(&ctx, &cases, |w, _, c| {
+                    let g = w.golden(c);
+                    if (!g[0].ok() && g[0].stderr_str().contains(&pat)) || c.name == pat {
+                        println!("=== {}\n{}\n--- stderr\n{}", c.name, c.inputs.iter().filter_map(|i| match &i.base { case::Base::Text(t) => Some(format!("--- {}\n{}", i.path, t)), _ => None }).collect::<Vec<_>>().join("\n"), g[0].stderr_str());
+                        if c.name == pat {
+                            for o in g.iter() {
+                                println!("exit={:?}\n{}", o.exit, o.stderr_str());
+                                for (k, v) in &o.files {
+                                    if k.ends_with(".txt") {
+                                        println!("--- {}\n{}", k, String::from_utf8_lossy(v));
+                                    }
+                                }
+                            }
+                        }
+                    }
+                });
+            }
+            println!("cases={} runs={} probes={:?} harness_errors={:?}", cases.len(), stats.runs, stats.probes, herr);
+            let _ = std::fs::remove_dir_all(&base_dir);
+            std::process::exit(0);
+        }
         if what == "run-item" {
             // debugging aid: run the compile(+extras) -> decompile -> recompile pipeline of matching corpus items once
             let pat = std::env::var("ITEM").unwrap_or_default();
